@@ -24,12 +24,13 @@ func init() {
 			"(R9) selectVersion decides afresh on every call: every exit has stored SelectedVersion in this call (nil only for an empty version list), so the last-resort stage is not conditional on an earlier selection. " +
 			"(R10) GetIdentifierAndVersion and GetVersionedPath use their path parameter only as the argument of path.Split, and the version pattern is searched in the file-name part: directory names never take part in the conversion. " +
 			"(R11) addResource assigns the given index to the resource on every path before it adds the version (an existing resource follows the index it was last defined by). " +
+			"(R12) every success return of GetFile is preceded by marking the file's version active; (R13) fileVersionRegex is rawVersionRegex with '_v' in front and '-' for '.' (the two patterns describe the same versions). " +
 			"NOT decided: correctness over all version multisets, semantic-version ordering, the file-name regexes.",
 		Rules: []ruleFn{c19R1, c19R2, c19R3, c19R4, c19R5,
 			lockRuleFor("C19-R6", 20, []string{"updater"}, []string{}, map[string]string{"updater.(*RegistryState).StartOperation / s.operationLock": "StartOperation/EndOperation bracket an updater operation; EndOperation releases operationLock"}),
 			c19R7,
 			repoErrRuleFor("C19-R8", 30, func(c *Ctx, fn *ssa.Function) bool { return short(fn.Pkg.Pkg.Path()) == "updater" }, map[string]string{"updater.(*ResourceRegistry).fetchFile / utils/renameio.PendingFile.Cleanup": "deferred removal of the temp file is best effort; the temp dir is purged later"}),
-			c19R9, c19R10, c19R11},
+			c19R9, c19R10, c19R11, c19R12, c19R13},
 	})
 }
 
